@@ -134,13 +134,67 @@ def extract(hi, lo, t):
         if hi < u.size(): return extract(hi, lo, u)
         if d == z3.Z3_OP_ZERO_EXT and lo >= u.size(): return z3.BitVecVal(0, hi - lo + 1)
     if d == z3.Z3_OP_CONCAT:
-        off = 0
+        off = 0; pieces = []
         for c in reversed(t.children()):
-            if lo >= off and hi < off + c.size(): return extract(hi - off, lo - off, c)
+            a, b = max(lo, off), min(hi, off + c.size() - 1)
+            if a <= b: pieces.append(extract(b - off, a - off, c))
             off += c.size()
+        pieces.reverse()
+        return concat(pieces)
     if z3.is_bv_value(t):
         return z3.BitVecVal((t.as_long() >> lo) & ((1 << (hi - lo + 1)) - 1), hi - lo + 1)
     return z3.Extract(hi, lo, t)
+
+_PARTS = {}     # id of a concatenation built by concat() -> (term, canonical list of its parts)
+def _parts(t):
+    """the parts (most significant first) of a concatenation; canonical lists are cached for terms built by concat()"""
+    r = _PARTS.get(t.get_id())
+    if r is not None: return r[1]
+    if t.decl().kind() == z3.Z3_OP_CONCAT:
+        out = []
+        for c in t.children(): out = _join(out, _parts(c))
+        return out
+    return [t]
+
+def _merge2(q, p):
+    """merged term when q (more significant) and p are adjacent numerals or adjacent extractions of one term, else None"""
+    qv, pv = z3.is_bv_value(q), z3.is_bv_value(p)
+    if qv and pv:
+        return z3.BitVecVal((q.as_long() << p.size()) | p.as_long(), q.size() + p.size())
+    if qv or pv: return None
+    if q.decl().kind() == z3.Z3_OP_EXTRACT and p.decl().kind() == z3.Z3_OP_EXTRACT:
+        hq, lq = q.params(); hp, lp = p.params()
+        if lq == hp + 1 and q.arg(0).eq(p.arg(0)):
+            return extract(hq, lp, q.arg(0))
+    return None
+
+def _join(A, B):
+    """concatenate two canonical part lists, merging at the seam only"""
+    if not A: return list(B)
+    if not B: return list(A)
+    A = list(A); B = list(B)
+    while A and B:
+        m = _merge2(A[-1], B[0])
+        if m is None: break
+        A.pop(); B[0] = m
+    return A + B
+
+def concat(parts):
+    """concatenation (most significant part first) with adjacent extractions of one term and adjacent numerals merged"""
+    out = []
+    for p in parts: out = _join(out, _parts(p))
+    if len(out) == 1: return out[0]
+    t = z3.Concat(*out)
+    _PARTS[t.get_id()] = (t, out)
+    return t
+
+def _is_zero_low(t, k):
+    """t == Concat(hi, 0_k') with k' >= k ?  returns hi-part list or None"""
+    ps = _parts(t)
+    last = ps[-1]
+    if z3.is_bv_value(last) and last.as_long() == 0 and last.size() >= k:
+        return ps
+    return None
 
 _LOWOPS = None
 _low_cache = {}
@@ -198,7 +252,7 @@ def low(t, k):
             if c.size() <= need: acc.append(c); have += c.size()
             else: acc.append(low(c, need)); have += need
         acc.reverse()
-        r = acc[0] if len(acc) == 1 else z3.Concat(*acc)
+        r = concat(acc)
     elif d == z3.Z3_OP_EXTRACT:
         hi_, lo_ = t.params()
         r = extract(lo_ + k - 1, lo_, t.arg(0))
@@ -219,9 +273,9 @@ def _lowerable(t, k):
     if r is not None: return r[1]
     d = t.decl().kind()
     if d in (z3.Z3_OP_ZERO_EXT, z3.Z3_OP_SIGN_EXT): r = _lowerable(t.arg(0), k)
-    elif d in _LOWOPS: r = all(_lowerable(c, k) for c in t.children())
+    elif d in (z3.Z3_OP_BAND, z3.Z3_OP_BOR, z3.Z3_OP_BXOR, z3.Z3_OP_BNOT): r = True     # bit-parallel: slicing commutes, nothing is recomputed
+    elif d in _LOWOPS: r = all(_lowerable(c, k) for c in t.children())               # adders/multipliers: only undo a widening
     elif z3.is_bv_value(t): r = True
-    elif d in (z3.Z3_OP_CONCAT, z3.Z3_OP_EXTRACT): r = True      # taking low bits only selects parts, nothing is recomputed
     elif d == z3.Z3_OP_ITE: r = _lowerable(t.arg(1), k) and _lowerable(t.arg(2), k)
     else: r = False
     _lowerable_cache[key] = (t, r)
@@ -262,18 +316,28 @@ def _arith(op):
     return f, r
 
 def _add(a, b):
+    if b.lo == 0 and b.hi == 0: return a
+    if a.lo == 0 and a.hi == 0: return b
     f = _aff_combine(a, b, 1)
     if f is not None and f[1] == 0: return f[2]
     lo, hi = a.lo + b.lo, a.hi + b.hi
     w, s = bits_for(lo, hi); w = max(w, a.w + 1, b.w + 1)
     return _with_aff(mk(ext(a, w) + ext(b, w), lo, hi), f)
 def _sub(a, b):
+    if b.lo == 0 and b.hi == 0: return a
     f = _aff_combine(a, b, -1)
     if f is not None and f[1] == 0: return f[2]
     lo, hi = a.lo - b.hi, a.hi - b.lo
     w, s = bits_for(lo, hi); w = max(w, a.w + 1, b.w + 1)
     return _with_aff(mk(ext(a, w) - ext(b, w), lo, hi), f)
 def _mul(a, b):
+    for x, y in ((a, b), (b, a)):
+        if y.lo == y.hi:
+            if y.lo == 1: return x
+            if y.lo == 0: return 0
+            if y.lo > 0 and y.lo & (y.lo - 1) == 0:
+                fx = _aff(x)
+                return _with_aff(_lshift(x, lift(y.lo.bit_length() - 1)), (fx[0], fx[1] * y.lo, fx[2] * y.lo) if fx is not None else None)
     c = [a.lo * b.lo, a.lo * b.hi, a.hi * b.lo, a.hi * b.hi]
     lo, hi = min(c), max(c)
     if lo == hi: return lo
@@ -285,6 +349,7 @@ def _mul(a, b):
         elif fb[0] is None: f = (fa[0], fa[1] * fb[2], fa[2] * fb[2])
     return _with_aff(mk(ext(a, w) * ext(b, w), lo, hi), f)
 def _and(a, b):
+    if (a.lo == 0 and a.hi == 0) or (b.lo == 0 and b.hi == 0): return 0
     if a.lo >= 0 and b.lo >= 0:
         hi = min(a.hi, b.hi)
         # an all-ones constant mask is an extraction
@@ -307,9 +372,19 @@ def _and(a, b):
         return mk(ext(a, w) & ext(b, w), 0, p.hi)
     w = max(a.w, b.w)
     return mk(ext(a, w) & ext(b, w), -(1 << (w - 1)), (1 << (w - 1)) - 1)
-def _orx(op):
+def _orx(op, is_or=False):
     def g(a, b):
+        if a.lo == 0 and a.hi == 0: return b
+        if b.lo == 0 and b.hi == 0: return a
         if a.lo >= 0 and b.lo >= 0:
+            for x, y in ((a, b), (b, a)):
+                if x.w > y.w:
+                    ps = _is_zero_low(x.t, y.w)
+                    if ps is not None:
+                        # x = hi || 0..0 and y fits into the zero part: the or/xor is a concatenation
+                        z = ps[-1].size()
+                        mid = [z3.BitVecVal(0, z - y.w)] if z > y.w else []
+                        return mk(concat(ps[:-1] + mid + [y.t]), 0, (1 << x.w) - 1)
             w = max(a.w, b.w)
             return mk(op(ext(a, w), ext(b, w)), 0, (1 << w) - 1)
         w = max(a.w, b.w) + 1
@@ -320,7 +395,7 @@ def _lshift(a, b):
     if b.lo == b.hi:
         k = b.lo
         if k == 0: return a
-        t = z3.Concat(a.t, z3.BitVecVal(0, k))
+        t = concat([a.t, z3.BitVecVal(0, k)])
         return mk(t, a.lo << k, a.hi << k)
     k = b.hi
     if k > 4096: raise EngineError('symbolic shift too wide')
@@ -450,3 +525,8 @@ def eqterm(a, b):
     if isinstance(a, SymInt): return a == b
     if isinstance(b, SymInt): return b == a
     return a == b
+
+def rev8(b):
+    """bit reversal of a symbolic byte (0..255), built in one step"""
+    t = uterm(b, 8)
+    return mk(concat([extract(i, i, t) for i in range(8)]), 0, 255)
